@@ -14,6 +14,7 @@ if [[ "$PATCH" == sed@@* ]]; then
   REST=${PATCH#sed@@}; EXPR=${REST%%@@*}; FILE=${REST##*@@}
   sed -i "$EXPR" "$W/repo/$FILE" || exit 3
 elif [[ "$PATCH" != none ]]; then
+  PATCH=$(readlink -f "$PATCH")
   (cd "$W/repo" && patch -p1 -s < "$PATCH") || { echo "PATCH-FAILED"; exit 3; }
 fi
 PVVERIF_REPO="$W/repo" PVVERIF_OUT="$W/out" VERIF_SEED=$SEED "$VERIF/check" "$ID" --tier "$TIER" > "$W/log" 2>&1
